@@ -329,10 +329,26 @@ theorem count_applyBreak (c : Config) (b : Break) (st : State) :
   | stop => exact count_doStop c st
   | srvEof => exact count_closeServer _ st
 
+theorem count_then_break (c : Config) (b : Break) (s : State) (o : List Obs) (k : Nat)
+    (h : nDestr o + b2n s.session = nInit o + k) :
+    nDestr (o ++ (applyBreak c b s).2) + b2n (applyBreak c b s).1.session =
+      nInit (o ++ (applyBreak c b s).2) + k := by
+  have := count_applyBreak c b s
+  simp only [nDestr_append, nInit_append]
+  omega
+
+theorem count_then_close (r : Reason) (s : State) (o : List Obs) (k : Nat)
+    (h : nDestr o + b2n s.session = nInit o + k) :
+    nDestr (o ++ (closeServer r s).2) + b2n (closeServer r s).1.session =
+      nInit (o ++ (closeServer r s).2) + k := by
+  have := count_closeServer r s
+  simp only [nDestr_append, nInit_append]
+  omega
+
 theorem count_loginDone (c : Config) (st : State) (hs : st.session = false) :
     nDestr (doLogin c { st with srvReply := .accepted }).2 +
-      b2n (doLogin c { st with srvReply := .accepted }).1.session =
-      nInit (doLogin c { st with srvReply := .accepted }).2 :=
+      b2n ({ (doLogin c { st with srvReply := .accepted }).1 with srvReply := st.srvReply } : State).session =
+      nInit (doLogin c { st with srvReply := .accepted }).2 + 0 :=
   count_doLogin c { st with srvReply := .accepted } (by simpa using hs)
 
 theorem count_doLoginBreak (c : Config) (pos : Option Nat) (d : Nat) (b : Break) (st : State)
@@ -342,16 +358,13 @@ theorem count_doLoginBreak (c : Config) (pos : Option Nat) (d : Nat) (b : Break)
   unfold doLoginBreak
   cases pos with
   | none =>
-    have := count_applyBreak c b st
-    simp only [nDestr_append, nInit_append]
-    have e1 : nDestr (if b = Break.writeFail then [] else [Obs.loginSent]) = 0 := by
-      split <;> simp [nDestr]
-    have e2 : nInit (if b = Break.writeFail then [] else [Obs.loginSent]) = 0 := by
-      split <;> simp [nInit]
+    have h0 : nDestr (if b = Break.writeFail then [] else [Obs.loginSent]) + b2n st.session =
+        nInit (if b = Break.writeFail then [] else [Obs.loginSent]) + 0 := by
+      rw [hs]; split <;> simp [nDestr, nInit, b2n]
+    have := count_then_break c b st _ 0 h0
+    simp only [nDestr_append, nInit_append] at this ⊢
     have e3 : nDestr [Obs.loginResult LoginResult.error] = 0 := by simp [nDestr]
     have e4 : nInit [Obs.loginResult LoginResult.error] = 0 := by simp [nInit]
-    rw [hs] at this
-    simp only [b2n] at this
     omega
   | some j =>
     simp only []
@@ -359,48 +372,32 @@ theorem count_doLoginBreak (c : Config) (pos : Option Nat) (d : Nat) (b : Break)
     split
     · cases b with
       | writeFail => simpa using hd
-      | close r =>
-        have := count_applyBreak c (.close r)
-          { (doLogin c { st with srvReply := .accepted }).1 with srvReply := st.srvReply }
-        simp only [nDestr_append, nInit_append] at this ⊢
-        omega
-      | stop =>
-        have := count_applyBreak c .stop
-          { (doLogin c { st with srvReply := .accepted }).1 with srvReply := st.srvReply }
-        simp only [nDestr_append, nInit_append] at this ⊢
-        omega
-      | srvEof =>
-        have := count_applyBreak c .srvEof
-          { (doLogin c { st with srvReply := .accepted }).1 with srvReply := st.srvReply }
-        simp only [nDestr_append, nInit_append] at this ⊢
-        omega
-    · have hb : ∀ b' : Break,
+      | close r => simpa using count_then_break c (.close r) _ _ 0 hd
+      | stop => simpa using count_then_break c .stop _ _ 0 hd
+      | srvEof => simpa using count_then_break c .srvEof _ _ 0 hd
+    · have h0 : nDestr [Obs.loginSent, Obs.sessionInit,
+            Obs.frames ((burst c (envOf c st)).take (min (j + 1) d))] +
+          b2n ({ st with session := true, users := true } : State).session =
+          nInit [Obs.loginSent, Obs.sessionInit,
+            Obs.frames ((burst c (envOf c st)).take (min (j + 1) d))] + 0 := by
+        simp [nDestr, nInit, b2n]
+      have hb : ∀ b' : Break,
           nDestr ([Obs.loginSent, Obs.sessionInit, Obs.frames ((burst c (envOf c st)).take (min (j + 1) d))] ++
               (applyBreak c b' { st with session := true, users := true }).2 ++ [Obs.loginResult LoginResult.ok]) +
             b2n (applyBreak c b' { st with session := true, users := true }).1.session =
           nInit ([Obs.loginSent, Obs.sessionInit, Obs.frames ((burst c (envOf c st)).take (min (j + 1) d))] ++
               (applyBreak c b' { st with session := true, users := true }).2 ++ [Obs.loginResult LoginResult.ok]) := by
         intro b'
-        have := count_applyBreak c b' { st with session := true, users := true }
-        simp only [nDestr_append, nInit_append]
-        have e1 : nDestr [Obs.loginSent, Obs.sessionInit,
-            Obs.frames ((burst c (envOf c st)).take (min (j + 1) d))] = 0 := by simp [nDestr]
-        have e2 : nInit [Obs.loginSent, Obs.sessionInit,
-            Obs.frames ((burst c (envOf c st)).take (min (j + 1) d))] = 1 := by simp [nInit]
+        have := count_then_break c b' _ _ 0 h0
         have e3 : nDestr [Obs.loginResult LoginResult.ok] = 0 := by simp [nDestr]
         have e4 : nInit [Obs.loginResult LoginResult.ok] = 0 := by simp [nInit]
-        simp only [b2n] at this
-        simp at this
+        rw [nDestr_append, nInit_append]
         omega
       cases b with
       | writeFail => exact hb _
       | close r => exact hb _
       | stop => exact hb _
-      | srvEof =>
-        have := count_closeServer .eof
-          { (doLogin c { st with srvReply := .accepted }).1 with srvReply := st.srvReply }
-        simp only [nDestr_append, nInit_append] at this ⊢
-        omega
+      | srvEof => simpa using count_then_close .eof _ _ 0 hd
 
 theorem count_reconnect (c : Config) (st : State) (hs : st.session = false) :
     nDestr (reconnect c st).2 + b2n (reconnect c st).1.session = nInit (reconnect c st).2 := by
